@@ -625,4 +625,12 @@ example : executions (run Cex.noExt 10 exW0 exMore) 1 = 1 ∧ isExec (run Cex.no
 example : ((exW0.flex.core.proposals.get? 1).map fun p =>
     decide (p.votes.yes + p.votes.no + p.votes.abstain + p.votes.veto ≤ U64_MAX)) = some true := by decide
 
+open CwPlus.Props.C15 in
+/-- non-vacuity of `dispatch_no_second_execution`: in the world after `exMore` proposal 1 is stored Executed; a further
+dispatch (the group's hook message to the multisig) succeeds and the ghost count stays 1 -/
+example : isExec (run Cex.noExt 10 exW0 exMore).flex.core 1 = true ∧
+    ((dispatch Cex.noExt 5 (run Cex.noExt 10 exW0 exMore) ⟨14, 0⟩ [.groupHook "ms"]).toOption.map fun w' => executions w' 1)
+      = some 1 := by
+  decide
+
 end CwPlus.Props.C05Flex
